@@ -415,6 +415,15 @@ impl Sim {
         *count += 1;
         if let Some((op, e)) = self.cfg.register_fail {
             if op == opcode {
+                if opcode == abi::UNREGISTER_PBUF_RING && !arg.is_null() {
+                    // A refused unregistration (e.g. a single-issuer ring
+                    // called from another thread). Modelled as: no request
+                    // can name the group any more, so the kernel never touches
+                    // the buffers again although the call fails.
+                    let reg = unsafe { arg.cast::<abi::BufReg>().read_unaligned() };
+                    self.rings[idx].pbufs.retain(|p| p.bgid != reg.bgid);
+                    track::release(PBUF_HOLD | ((fd as u64) << 16) | reg.bgid as u64);
+                }
                 return fail(e);
             }
         }
